@@ -21,6 +21,9 @@ structure Params where
   thr : Nat := Generated.threshold   -- regenerated from the source; a `param thr` line overrides
   corpus : Driver.Recv.Corpus := []  -- receiver declarations (`decl` lines)
   global : Oracle := {}              -- oracle rows valid for every case (`oracle` lines)
+  hypOk : Nat := 0                   -- cases on which the hypotheses of the C03 span theorems hold
+  hypBad : Nat := 0                  -- … and on which they do not (first such case id)
+  hypFirst : String := ""
 
 def answer (p : Params) (prop : String) (c : Sexp) : String :=
   match prop with
@@ -35,7 +38,9 @@ def answer (p : Params) (prop : String) (c : Sexp) : String :=
 
 partial def loop (h : IO.FS.Stream) (out : IO.FS.Stream) (p : Params) : IO Unit := do
   let line ← h.getLine
-  if line.isEmpty then return ()
+  if line.isEmpty then
+    IO.eprintln s!"hyp spanwf ok={p.hypOk} bad={p.hypBad} first={p.hypFirst}"
+    return ()
   let line := String.ofList (line.toList.reverse.dropWhile (fun c => c = '\n' || c = '\r')).reverse
   let (prop, rest) := splitHead line
   if prop = "param" then
@@ -58,10 +63,22 @@ partial def loop (h : IO.FS.Stream) (out : IO.FS.Stream) (p : Params) : IO Unit 
     | none => loop h out p
   else
     let (id, payload) := splitHead rest
-    let ans := match Sexp.parse payload with
+    let parsed := Sexp.parse payload
+    let ans := match parsed with
       | some c => answer p prop c
       | none => "bad-sexp"
     out.putStrLn (id ++ " " ++ ans)
+    -- monitor of the hypotheses of the span theorems (C03): reported on stderr at the end
+    let hv : Option Bool := match parsed with
+      | some c => (match prop with
+          | "fm" => Driver.FM.hyp c
+          | "recv" => Driver.Recv.hyp p.global c
+          | _ => none)
+      | none => none
+    let p := match hv with
+      | some true => { p with hypOk := p.hypOk + 1 }
+      | some false => { p with hypBad := p.hypBad + 1, hypFirst := if p.hypFirst.isEmpty then id else p.hypFirst }
+      | none => p
     loop h out p
 
 def main : IO Unit := do
